@@ -41,7 +41,13 @@ def run(ctx):
     ctx.require_actions(r, ["Next"])
     if ctx.replay:   # the stored case only (the design-level run above keeps the evidence complete)
         case = json.load(open(ctx.replay))["case"]["input"]
-        ctx.absorb(ctx.run_engine(vh, "peercache", [case]))
+        if "pattern" in case:       # a recorded-session case (system-level cache clauses)
+            res, bad, _ = su.run_sessions(ctx, vh, [case], tag="replay")
+            su.report(ctx, "C20", [case], res, bad)
+            ctx.traces += 1
+            ctx.samples.append(case)
+        else:
+            ctx.absorb(ctx.run_engine(vh, "peercache", [case]))
         return
     rs = ctx.tlc("PeerCache", "MC_PeerCache_star.cfg", timeout=900)
     beh = concretise(ctx, r.replays, "skip" if ctx.thorough else "small")
